@@ -91,7 +91,7 @@ def _unescape(s):
 
 def tlc(module, cfg=None, workers="auto", simulate=None, depth=None, seed=None,
         timeout=600, env=None, coverage=False, deadlock=True, extra=None,
-        heap="8g", dfs=False, keep_out=False, tags=("BEH",)):
+        heap="8g", dfs=False, keep_out=False, tags=("BEH",), cfg_text=None):
     """Run TLC on spec/<module>.tla with spec/<cfg>.cfg in a scratch copy."""
     res = TLCResult()
     sd = scratch_dir("verif-tlc-")
@@ -100,6 +100,9 @@ def tlc(module, cfg=None, workers="auto", simulate=None, depth=None, seed=None,
             if f.endswith(".tla") or f.endswith(".cfg") or f.endswith(".json"):
                 shutil.copy(os.path.join(SPEC, f), sd)
         cfg = cfg or module
+        if cfg_text is not None:
+            with open(os.path.join(sd, cfg + ".cfg"), "w") as f:
+                f.write(cfg_text)
         javaopts = ["-XX:+UseParallelGC", "-Xmx" + heap, "-Xss64m"]
         if dfs:
             javaopts.append("-Dtlc2.tool.queue.IStateQueue=StateDeque")
